@@ -29,6 +29,7 @@ class Exec:
         self.np = nprng
         self.frame_violations = []     # (op, object id) whose observable state changed though it was not the target
         self.shape_violations = []
+        self.rule_violations = []      # (op, outcome) of invalid combinations that did not raise SMRTError
 
     def ident(self, o):
         for i, x in enumerate(self.objs):
@@ -84,6 +85,14 @@ class Exec:
         t = op.split()
         before = [dump(o) for o in self.objs]
         target = None
+        # invalid combinations of the statement, decided on the objects themselves: a second substrate, an atmosphere underneath
+        must_raise = None
+        if t[0] in ("add", "iadd") and t[1][0] == "s" and int(t[1][1:]) < len(self.objs):
+            left = self.objs[int(t[1][1:])]
+            if t[2][0] == "u" and getattr(left, "substrate", None) is not None:
+                must_raise = "a second substrate"
+            elif t[2][0] == "a":
+                must_raise = "an atmosphere underneath"
         try:
             if t[0] == "mk":
                 n = int(t[1]); ths = [int(x) for x in t[2:2 + n]]
@@ -130,6 +139,8 @@ class Exec:
             out = "ERR:AssertionError"
         except Exception as e:  # noqa
             out = "ERR:foreign:" + type(e).__name__
+        if must_raise is not None and out != "ERR:SMRTError":
+            self.rule_violations.append((op, out, must_raise))
         # frame: only the target of an in-place operation may change
         for i, b in enumerate(before):
             if i != target and dump(self.objs[i]) != b:
@@ -343,6 +354,9 @@ def check_history(ops):
     if ex.frame_violations:
         op, i, b, a = ex.frame_violations[0]
         return ("operand-changed", f"'{op}' changed snowpack object {i}, which is not its target: {b} -> {a}", "operands and other media unchanged")
+    if ex.rule_violations:
+        op, out, why = ex.rule_violations[0]
+        return ("invalid-accepted", f"'{op}' ({why}) gives {out}", "SMRTError")
     return None
 
 
@@ -407,6 +421,37 @@ def check_make_values(seed, shape):
     return None
 
 
+def check_surface(seed, ctor):
+    """the prescribed `surface` is the interface on top of the first layer that is kept (zero-thickness layers are dropped, leading ones
+    included), the other interfaces being the `interface` argument - for make_snowpack and make_ice_column alike"""
+    from smrt.inputs.make_medium import make_snowpack, make_ice_column
+    rng = np.random.default_rng(seed)
+    n = int(rng.integers(4, 7))
+    th = [round(float(v), 3) for v in rng.uniform(0.05, 1.0, n)]
+    for j in range(int(rng.integers(1, 3))):
+        th[j] = 0.0                                  # one or two leading zero-thickness layers
+    if n > 3 and rng.random() < 0.5:
+        th[-2] = 0.0
+    surface, inner = [("transparent", "flat"), ("flat", "transparent")][int(rng.integers(0, 2))]
+    temp = [round(float(v), 2) for v in rng.uniform(250, 270, n)]
+    try:
+        if ctor == "make_snowpack":
+            sp = make_snowpack(th, "homogeneous", density=300.0, temperature=temp, surface=surface, interface=inner)
+        else:
+            ice = str(rng.choice(["fresh", "firstyear", "multiyear"]))
+            sp = make_ice_column(ice, th, temp, "homogeneous", surface=surface, interface=inner, add_water_substrate=bool(rng.integers(0, 2)),
+                                 **({} if ice == "fresh" else {"salinity": 0.005}))
+    except Exception as e:  # noqa
+        return (f"surface:{ctor}", f"{ctor}(thickness={th}, surface={surface!r}, interface={inner!r}) raises {type(e).__name__}: {str(e)[:80]}", "a medium")
+    kept = [t for t in th if t > 0]
+    names = [type(i).__name__.lower() for i in sp.interfaces]
+    want = [surface] + [inner] * (len(kept) - 1)
+    if len(sp.layers) != len(kept) or names != want or [float(l.thickness) for l in sp.layers] != kept:
+        return (f"surface:{ctor}", f"{ctor}(thickness={th}, surface={surface!r}, interface={inner!r}): layers {[float(l.thickness) for l in sp.layers]}, "
+                f"interfaces {names}", f"layers {kept}, interfaces {want}")
+    return None
+
+
 MAKE_SHAPES = ["list", "ndarray", "series", "series-reversed-labels", "series-shuffled-labels", "series-offset-labels", "series-string-labels",
                "frame-filtered"]
 
@@ -464,6 +509,13 @@ def oracle(ctx, hints, effort):
             r = check_make_values(sd, shape)
             if r is not None:
                 findings.setdefault(r[0], Finding(r[0], r[1], {"kind": "make-values", "seed": sd, "shape": shape}, r[1], r[2]))
+    for ctor in ("make_snowpack", "make_ice_column"):
+        for _ in range(4 if effort == "routine" else 25):
+            evals += 1
+            sd = int(rng.integers(0, 2**31))
+            r = check_surface(sd, ctor)
+            if r is not None:
+                findings.setdefault(r[0], Finding(r[0], r[1], {"kind": "surface", "seed": sd, "ctor": ctor}, r[1], r[2]))
     for (ths, m) in [([1, 2], 3), ([1, 2, 3], 5), ([1], 2)]:
         evals += 1
         r = check_make(len(ths), ths, m)
@@ -480,6 +532,9 @@ def replay(inp, rp=None):
         exp = expected_z(inp["z"]); got = impl_z(inp["z"])
         want = "ERR:SMRTError" if exp is None else " ".join(map(str, exp))
         return Finding("?", "compute_thickness_from_z", inp, got, want) if got != want else None
+    if inp["kind"] == "surface":
+        r = check_surface(inp["seed"], inp["ctor"])
+        return Finding("?", r[1], inp, r[1], r[2]) if r else None
     if inp["kind"] == "make-values":
         r = check_make_values(inp["seed"], inp["shape"])
         return Finding("?", r[1], inp, r[1], r[2]) if r else None
